@@ -385,12 +385,25 @@ def _planner(ctx, prog, dual):
     found = None
     if cb is not None:
         ctx.fn(cb)
-        rvs = [strip(x[0]) for x in cb.return_values()]
-        if len(rvs) == 1:
-            r = rvs[0]
+        # the predicate is `!collides(robot, q)`: returned as such, or as true / false on the false / true edge of that call
+        tests = set()
+        shape_ok = True
+        for r, d, rb in cb.return_values():
+            r = strip(r)
             found = show(r, maxdepth=6)
             if isinstance(r, tuple) and r[0] == 'un' and r[1] == 'Not':
-                c = strip(r[2])
+                tests.add(strip(r[2]))
+            elif util.const_val(r) in (0, 1, True, False) and d:
+                gs = [(strip(g), opw.truth(k)) for g, k, sw in cb.guard_terms(d[1])]
+                gs = [(g, v) for g, v in gs if isinstance(g, tuple) and g[0] == 'call' and cname(g[1]) == 'KinematicsWithShape::collides']
+                if len(gs) == 1 and gs[0][1] in (True, False) and bool(util.const_val(r)) == (not gs[0][1]):
+                    tests.add(gs[0][0])
+                else:
+                    shape_ok = False
+            else:
+                shape_ok = False
+        if shape_ok and len(tests) == 1:
+            for c in tests:
                 if isinstance(c, tuple) and c[0] == 'call' and cname(c[1]) == 'KinematicsWithShape::collides':
                     robot = strip(c[2])
                     vec = strip(c[3])
@@ -439,10 +452,40 @@ def _planner(ctx, prog, dual):
             for bi2, t2 in cl.calls():
                 names.append(cname(callee_name(t2)))
         bad = [n for n in names if n.split('::')[-1] in opw.ITER_DROPPERS | opw.VEC_REMOVERS | opw.VEC_REORDER]
-        ctx.check(not bad and any(n.endswith('::map') for n in names) and any(n.endswith('::collect') for n in names), 'R13.5', 'convert/order', c.where(0), c.path,
+        mapped = any(n.endswith('::map') for n in names) and any(n.endswith('::collect') for n in names)
+        # ... or a loop over the nodes that pushes one converted element per node into the vector that is returned
+        looped = False
+        whole_elem = False
+
+        def _elem_of_loop(t):
+            """the loop element a converted value derives from, through conversions that keep it whole and in order"""
+            t = strip(t)
+            for _ in range(12):
+                if util.loop_source(t) is not None:
+                    return t
+                if isinstance(t, tuple) and t[0] in ('fld', 'as', 'cast'):
+                    t = strip(t[1])
+                elif isinstance(t, tuple) and t[0] == 'call' and cname(t[1]).split('::')[-1] in (
+                        'branch', 'map_err', 'try_into', 'try_from', 'as_slice', 'deref', 'as_ref', 'unwrap', 'expect', 'ok_or', 'ok_or_else', 'into', 'from'):
+                    t = strip(t[2])
+                else:
+                    return None
+            return None
+        pushes = [(bi2, t2) for bi2, t2 in c.calls() if cname(callee_name(t2)) == 'Vec::push']
+        if len(pushes) == 1 and not mapped:
+            bi2, t2 = pushes[0]
+            el = _elem_of_loop(c.op_term(t2['args'][1], (bi2, None)))
+            if el is not None:
+                base, ad = util.iter_chain(util.loop_source(el))
+                from_input = mir.contains(base, lambda x: x[0] == 'param' and x[1] == 2)
+                dest = strip(c.op_term(t2['args'][0], (bi2, None)))
+                oks = [strip(t3) for t3, d3, rb3 in c.return_values() if isinstance(strip(t3), tuple) and strip(t3)[0] == 'agg' and 'Ok' in strip(t3)[1]]
+                looped = from_input and all(a in ('into_iter', 'iter') for a in ad) and len(oks) == 1 and strip(oks[0][2]) == dest
+                whole_elem = looped and mir.contains(c.op_term(t2['args'][1], (bi2, None)), lambda x: x[0] == 'call' and cname(x[1]).split('::')[-1] in ('try_into', 'try_from'))
+        ctx.check(not bad and (mapped or looped), 'R13.5', 'convert/order', c.where(0), c.path,
                   'conversion must keep every node in order', found=bad)
         # element i of the array comes from vec[i]
-        ok = False
+        ok = whole_elem
         for cl in prog.bodies.values():
             if cl.path.startswith(c.path + '::{closure'):
                 for i, j, st in cl.stmts():
@@ -455,6 +498,10 @@ def _planner(ctx, prog, dual):
                                 idxs.append(util.const_val(e[3]))
                                 break
                         ok = idxs == [0, 1, 2, 3, 4, 5]
+                # ... or the whole node converted at once (slice -> array keeps the order)
+                for bi3, t3 in cl.calls():
+                    if cname(callee_name(t3)).split('::')[-1] in ('try_into', 'try_from') and util.is_param(_elem_root(cl, t3['args'][0], bi3), 2):
+                        ok = True
         ctx.check(ok, 'R13.5', 'convert/slots', c.where(0), c.path, 'array slot i must be vector element i')
     # plan_rrt: passes start/goal/stop to plan_path and returns converted result
     pr = prog.find(suffix='rrt::RRTPlanner::plan_rrt')
@@ -465,6 +512,13 @@ def _planner(ctx, prog, dual):
         # exactly one call, and each of start / goal / kinematics / stop reaches exactly one parameter of the planner
         ok = len(site) == 1 and len(set(params.values())) == 4
         ctx.check(ok, 'R13.3', 'plan_rrt/args', pr.where(site[0][0]) if site else pr.where(0), pr.path, 'plan_rrt must hand (kinematics, start, goal, stop) to the planner unchanged')
+
+
+def _elem_root(b, op, bi):
+    t = strip(b.op_term(op, (bi, None)))
+    while isinstance(t, tuple) and t[0] == 'call' and cname(t[1]).split('::')[-1] in ('as_slice', 'deref', 'as_ref') and len(t) == 3:
+        t = strip(t[2])
+    return t
 
 
 def _param_of(t):
